@@ -5,6 +5,9 @@ from .pub import pub_reqs, delivered_acks, BIG, _nodup
 RETX = ("PUBLISH", "PUBREL", "SUBSCRIBE", "UNSUBSCRIBE")
 
 
+T_EXACT = float(1 << 32)       # virtual seconds up to which time arithmetic on the 2**-20 s grid is exact in float64
+
+
 def packet_streams(A):
     """Group every retransmittable packet written by identity:
     ('PUBLISH', token) / ('SUBSCRIBE', token) / ('UNSUBSCRIBE', token) /
@@ -124,6 +127,8 @@ def c08(A):
                 t0 = min(t0, A.calls[r.i_call]["timeout"])
             gaps = []
             for x, y in zip(lst, lst[1:]):
+                if y["t"] > T_EXACT:
+                    break       # beyond 2**32 s of virtual time (a back-off grown by factor 3 for dozens of expiries) float64 can no longer hold a few seconds' difference
                 g = y["t"] - x["t"]
                 gaps.append((g, x, y))
                 if g < t0 - 1e-9 - A.cfg.late:
@@ -250,6 +255,7 @@ def c13(A):
         emax = 0
         emin = 0
         all_lost = True
+        exact = sn["t"] <= T_EXACT      # (beyond that the ping-deadline arithmetic below is no longer exact: allow both deadlines)
         for c in A.conns.values():
             if c.i_build is None or c.i_build > i_s:
                 continue
@@ -276,7 +282,7 @@ def c13(A):
                                 open_pings = open_pings[:-1]   # answers the latest PINGREQ only
                             else:
                                 open_pings.append(t)
-                    emax += min(2, sum(1 for t in open_pings if t + c.keepalive >= sn["t"] - A.cfg.late - A.stall_total - 1e-6))
+                    emax += min(2, sum(1 for t in open_pings if not exact or t + c.keepalive >= sn["t"] - A.cfg.late - A.stall_total - 1e-6))
             for r in connect_reqs.get(c.idx, []):
                 if r.i_ret < i_s and not r.fired_before(i_s):
                     emax += 1
